@@ -221,6 +221,27 @@ def check(res: Result, dim, system, tier, only=None, raw_layout=None):
 
         compare("setter", "SymPy", s, lambda s=s: setsym(s), lambda g=g: setsym(g), {"clause": "setter", "backend": "SymPy", "sys": list(system), "name": s})
 
+    # ------------------------------------------------------------------ getters after assignments (one object: read, assign, read again)
+    if only in (None, "!raw_awkward", "getter_after_assignment"):
+        assignable = [c for c in ("x", "y", "rho", "phi", "z", "theta", "eta", "t", "tau") if not (c in ("z", "theta", "eta") and dim < 3 or c in ("t", "tau") and dim < 4)]
+        assignable += [n for n, g in SETTABLE.items() if g in assignable]
+        for v, fst, st in rows[:2]:
+            for cname in assignable:
+                o = B.make_obj(system, "momentum", fst)
+                try:
+                    for s_ in list(syn) + [g_[1] for g_ in GROUPS4 if dim == 4]:
+                        getattr(o, s_)  # first read: whatever an implementation may remember is remembered now
+                    setattr(o, cname, 1.4375 if SETTABLE.get(cname, cname) not in ("theta",) else 0.8125)
+                except Exception:  # noqa: BLE001
+                    continue
+                case = {"clause": "getter_after_assignment", "backend": "OBJ", "v": list(v.comps), "sys": list(system), "assigned": cname}
+                for s_, g_ in syn.items():
+                    compare("getter_after_assignment", "OBJ", f"{s_} after {cname}=", lambda o=o, s_=s_: getattr(o, s_), lambda o=o, g_=g_: getattr(o, g_), dict(case, name=s_))
+                if dim == 4:
+                    for grp in GROUPS4:
+                        for s_ in grp[1:]:
+                            compare("getter_after_assignment", "OBJ", f"{s_} after {cname}=", lambda o=o, s_=s_: getattr(o, s_), lambda o=o, g_=grp[0]: getattr(o, g_), dict(case, name=s_))
+
     # ------------------------------------------------------------------ NumPy item access / assignment
     stored_names = L.field_names(system)
     stored_mom = L.field_names(system, "momentum")
